@@ -105,6 +105,54 @@ def self_test(rng, n=400):
     return None
 
 
+def qtrace_to_schedule(events):
+    """the H4 event trace of the real request manager as a schedule of Model/ReqMgr.v labels.  The real loop records
+    a dispatch only when it starts a request; the model's Dispatch label is mandatory after every receive/delivery, so an
+    `X -` (dispatch that starts nothing) is inserted right after the loop event that precedes a missing dispatch: the
+    queue only shrinks and the in-flight counter only changes through the loop itself, so 'nothing to start' at the real
+    check implies 'nothing to start' at that earlier point."""
+    out = []
+    loop_idx = [i for i, e in enumerate(events) if e[0] in "LDX"]
+    nxt = {i: (events[loop_idx[j + 1]] if j + 1 < len(loop_idx) else None) for j, i in enumerate(loop_idx)}
+    for i, e in enumerate(events):
+        out.append(e)
+        f = e.split()
+        owes = (f[0] == "L" and (f[1] == "token" or f[2] == "ab")) or f[0] == "D"
+        if owes and nxt[i] is not None and not nxt[i].startswith("X"):
+            out.append("X -")
+    return out
+
+
+def model_check_trace(res, cfg, events, all_returned=True):
+    """run the extracted request-queue model on the real trace; returns an error string or None"""
+    sched = qtrace_to_schedule(events)
+    rc, ans = run_model("c12_driver", ";".join(sched) + "\n")
+    ans = ans.strip()
+    res.extra["req_events_checked"] = res.extra.get("req_events_checked", 0) + len(sched)
+    res.extra["req_traces_checked"] = res.extra.get("req_traces_checked", 0) + 1
+    for k in ("E", "T", "L", "X", "D", "F"):
+        res.distribution["req_" + k] = res.distribution.get("req_" + k, 0) + sum(1 for e in sched if e.startswith(k + " "))
+    res.distribution["req_F_aborted"] = res.distribution.get("req_F_aborted", 0) + sum(1 for e in sched if e.startswith("F ") and e.endswith(" ab"))
+    if not ans.startswith("ok"):
+        k = None
+        if "@" in ans:
+            try:
+                k = int(ans.split("@")[1].split()[0])
+            except ValueError:
+                pass
+        ctx = " ; ".join(sched[max(0, (k or 0) - 12):(k or 0) + 3]) if k is not None else ""
+        return "request-queue model rejects the real event trace: %s (events around it: %s)" % (ans, ctx)
+    if all_returned:
+        # every call returned in the real run: the model must have every caller done and nothing pending
+        import re
+        m = re.search(r"callers=(\S+)", ans)
+        if m:
+            cs = dict(x.split(":") for x in m.group(1).split(","))
+            if any(int(v) for k2, v in cs.items() if k2 != "DONE"):
+                return "all real calls returned but the model still has unanswered callers: " + ans
+    return None
+
+
 def one_run(res, clients, calls, groups, rpg, seed, nins, gomaxprocs):
     d = tempfile.mkdtemp(prefix="c12_", dir=os.path.join(BUILD, "tmp"))
     try:
@@ -117,10 +165,18 @@ def one_run(res, clients, calls, groups, rpg, seed, nins, gomaxprocs):
             out = (e.stdout or b"").decode(errors="replace") if not isinstance(e.stdout, str) else e.stdout
             out = (out or "") + "\nHUNG\n"
         lines = out.strip().split("\n")
+        qtr = [l for l in lines if l.startswith("QTRACE ")]
+        lines = [l for l in lines if not l.startswith("QTRACE ")]
         cfg = "clients=%d calls=%d groups=%d rows/group=%d inserts=%d GOMAXPROCS=%d seed=%d" % (clients, calls, groups, rpg, nins, gomaxprocs, seed)
         if "DONE" not in lines:
             hung = [l for l in lines if l.endswith("HUNG") and l != "HUNG"]
             return cfg, "a call blocks forever (or the process died): %s" % (hung[:3] or lines[-3:])
+        if qtr:
+            bad = model_check_trace(res, cfg, [e for e in qtr[0][7:].split(";") if e])
+            if bad:
+                res.mismatches.append(("# verifharness c12 with " + cfg + "\n# schedule for build/c12_driver:\n" + ";".join(qtrace_to_schedule([e for e in qtr[0][7:].split(";") if e])), bad))
+        else:
+            res.broken.append("the harness printed no request-queue trace (hook H4)")
         calls_seen = {}
         regs = {g: [] for g in range(groups)}
         final_acct, final_ins = None, None
@@ -186,6 +242,32 @@ def run(res, replay=None):
     if st:
         res.broken.append("linearizability checker self-test failed: " + st)
         return
+    # corpus first: the schedule of Model/ReqMgr.v's deadlock_schedule on the real request manager (fixed finding F-REQ-DEADLOCK)
+    for others in ([120] if res.tier == "quick" else [101, 120, 300]):
+        d = tempfile.mkdtemp(prefix="c12dl_", dir=os.path.join(BUILD, "tmp"))
+        try:
+            try:
+                p = subprocess.run([HARNESS_BIN, "c12dl", "-", d, str(others), "3"], capture_output=True, text=True, timeout=120, cwd=d)
+                lines = p.stdout.strip().split("\n")
+            except subprocess.TimeoutExpired:
+                lines = []
+            ret = [l for l in lines if l.startswith("RETURNED ")]
+            qtr = [l for l in lines if l.startswith("QTRACE ")]
+            cfg = "c12dl others=%d (one caller held between enqueue and token send while %d callers fill the request channel)" % (others, others)
+            res.note_case(cfg, True)
+            if not ret or "SETUP true" not in lines:
+                res.broken.append("deadlock-schedule scenario could not be set up: %s" % lines[:3])
+            else:
+                n, tot = int(ret[0].split()[1]), int(ret[0].split()[2])
+                if n != tot:
+                    res.oracle_failures.append(("# verifharness c12dl - <dir> %d 3\n# event trace (hook H4):\n%s" % (others, qtr[0][7:] if qtr else ""),
+                                                "%d of %d ExecuteSQL calls never return: the run loop and a caller wait for each other (request channel full)" % (tot - n, tot)))
+                elif qtr:
+                    bad = model_check_trace(res, cfg, [e for e in qtr[0][7:].split(";") if e])
+                    if bad:
+                        res.mismatches.append(("# " + cfg, bad))
+        finally:
+            shutil.rmtree(d, ignore_errors=True)
     nruns = 24 if res.tier == "quick" else 200
     sizes = [1, 2, 8, 32, 64] if res.tier == "quick" else [1, 2, 8, 32, 64, 120, 200]
     for i in range(nruns):
